@@ -41,6 +41,7 @@ func init() {
 	register("C06", func(s *simrt.Sim) *Result { return RunPass(s, PassProfile{Name: "C06", Faults: true}) })
 	register("C06clean", func(s *simrt.Sim) *Result { return RunPass(s, PassProfile{Name: "C06clean"}) })
 	register("C20", func(s *simrt.Sim) *Result { return RunPass(s, PassProfile{Name: "C20", BadMetadata: true}) })
+	register("C09", RunGossip)
 	register("C08", func(s *simrt.Sim) *Result {
 		return RunRoute(s, RouteProfile{Name: "C08", Faults: true, Churn: true, Cleanup: true})
 	})
